@@ -64,7 +64,16 @@ def post_jobs(tier, prop):
 
 # post_jobs (ncmpio_igetput_varm): MiniSat ends with ERROR/out-of-memory; CaDiCaL decides one-record instances in 15 s; multi-record instances need
 # ncmpio_add_record_requests replaced by its contract (enforced separately)
+def extract_jobs(tier, prop):
+    js = []
+    for nl, nr in ([(2, 2), (2, 1), (3, 2)] if tier == 'quick' else [(1, 1), (2, 1), (2, 2), (2, 3), (3, 2), (3, 3)]):
+        js.append(Job('%s/extract_reqs/put/pending%d_ids%d' % (prop, nl, nr), prop, WT + ['src/drivers/common/error_mpi2nc.c'], 'C02_extract.c', enforce='ncmpio_wait.c:extract_reqs', extra_src=MODEL,
+                      defines=['-DNL=%d' % nl, '-DNR=%d' % nr], canaries=['unknown_id', 'only_null_ids'] + (['all_named'] if nr >= nl else []) + (['proper_subset'] if nl > 1 else []) + (['named_in_reverse_order'] if nr >= nl and nl > 1 else []),
+                      unwind=26, kind='bounded', timeout=600, solver=['--sat-solver', 'cadical'], unwindset=['ncmpio_wait.c:extract_reqs.%d:%d' % (i, max(nl, nr) + 2) for i in range(24)],
+                      bound='%d pending lead puts (one sub-request each, no pending get), %d ids per wait, each symbolic (a pending id, NC_REQ_NULL or an id that names nothing); request flags symbolic' % (nl, nr)))
+    return js
+
 def jobs(tier, ws):
     # req_commit (commit_jobs): MiniSat needs > 7 min per obligation even on a 2-request queue; CaDiCaL (--sat-solver cadical) 1-2.5 min per instance
     import os
-    return cancel_jobs(tier, 'C02') + commit_jobs(tier, 'C02') + post_jobs(tier, 'C02')
+    return cancel_jobs(tier, 'C02') + commit_jobs(tier, 'C02') + post_jobs(tier, 'C02') + extract_jobs(tier, 'C02')
